@@ -17,6 +17,7 @@ LEVEL_NOTE = "Trusts the generator's own cell->text rendering (20 lines) and CPy
 RULE = (
     "cases: generated texts (cells -> text with decorations) and every chart of the corpus; a case is "
     "non-trivial when it has at least 2 notes; distinct by canonical JSON of (text, expected notes)."
+    ' Round 5: two passes over one object alive at once, advanced alternately.'
 )
 ASSUMPTIONS = ["the generator renders cells to text faithfully", "fractions.Fraction is exact"]
 MONITORS = ["decode", "repeat_iteration", "interleaved_iteration", "ordering_ops", "str_identity", "columns", "via_chart"]
